@@ -36,6 +36,7 @@ class ClientAuthenticator:
         self.protocol = protocol
         self.unixFDSupport = self._usesUnixSocketTransport(self.protocol)
         self.guid = None
+        self.negotiatingUnixFD = False  # NEGOTIATE_UNIX_FD sent, no answer yet
         self.cookie_dir = None  # used for testing only
 
         self.authOrder = self.preference[:]
@@ -118,13 +119,15 @@ class ClientAuthenticator:
             raise DBusAuthenticationFailed('Invalid guid in OK message')
         else:
             if self.unixFDSupport:
+                self.negotiatingUnixFD = True
                 self.sendAuthMessage(b'NEGOTIATE_UNIX_FD')
             else:
                 self.sendAuthMessage(b'BEGIN')
                 self.authenticated = True
 
     def _auth_AGREE_UNIX_FD(self, line):
-        if self.unixFDSupport:
+        if self.unixFDSupport and self.negotiatingUnixFD:
+            self.negotiatingUnixFD = False
             self.sendAuthMessage(b'BEGIN')
             self.authenticated = True
         else:
